@@ -127,8 +127,8 @@ def cases(draw):
     op = st.one_of(
         st.tuples(st.just("add_node"), node).map(list),
         st.tuples(st.just("add_nodes"), st.lists(node, min_size=1, max_size=3)).map(list),
-        st.tuples(st.just("add_nodes"), st.lists(node, min_size=1, max_size=3), st.just("$gen")).map(list),
-        st.tuples(st.just("add_links"), st.lists(triple, min_size=1, max_size=3), st.just("$gen")).map(list),
+        st.tuples(st.just("add_nodes"), st.lists(node, min_size=1, max_size=3), st.sampled_from(["$gen", "$keys", "$view"])).map(list),
+        st.tuples(st.just("add_links"), st.lists(triple, min_size=1, max_size=3), st.sampled_from(["$gen", "$keys"])).map(list),
         st.tuples(st.just("add_path"), path(), st.one_of(st.none(), orig), st.one_of(st.none(), dest), st.just("$gen")).map(list),
         st.tuples(st.just("add_link"), node, link, node).map(list),
         st.tuples(st.just("add_links"), st.lists(triple, min_size=1, max_size=3)).map(list),
@@ -142,6 +142,8 @@ def cases(draw):
         st.tuples(st.just("read"), st.lists(st.sampled_from(CACHED), min_size=1, max_size=2, unique=True)).map(list),
     )
     ops = draw(st.lists(op, min_size=1, max_size=25))
+    if draw(st.integers(0, 2)) == 0:
+        uni = dict(uni, net_class="subclass")  # the network object is an instance of a user subclass of Network
     return {"universe": uni, "ops": ops + [READ_ALL]}
 
 
@@ -283,6 +285,11 @@ def check_read(ctx, sim, names, last_mut, seen):
 
 def check_case(case, ctx):
     sim = G.Sim(case["universe"])
+    if case["universe"].get("net_class"):
+        ctx.label("network:" + case["universe"]["net_class"])
+    for op in case["ops"]:
+        if isinstance(op[-1], str) and op[-1] in ("$gen", "$keys", "$view"):
+            ctx.label("bulk-argument:" + op[-1][1:])
     seen = {}
     last_mut = "-"
     for op in case["ops"]:
